@@ -339,7 +339,7 @@ func init() {
 	})
 	register(&PropSpec{
 		ID: "C04", Level: "exploration",
-		Rule:        "2..16 client goroutines issue set / delete / get / mem-only get through HStore on 2..8 shared keys over 1..3 buckets while harness-driven equivalents of the Flusher and HintDumper loop bodies run and tiny data-file / hint-split limits force rotations; every operation is recorded at the API boundary with invocation/response ticks of one global atomic counter, values are self-describing (key, writer, sequence, length, regenerable bytes) and freed C buffers are poisoned; per key the history is checked by (a) version rules (distinct dense versions, real-time order of writes, a read returns exactly the value of the write whose version it reports, no read from the future, no stale read, monotone reads, final read = highest version) and (b) porcupine v1.3.0 with a 30-line sequential model; schedule reach = seeded perturbation (yield / short sleep) at the store's hook points plus 8 deterministic park/release orderings; the same histories run under the race detector (reports classified by racing source line) and AddressSanitizer. distinct = schedule signatures (hash of the global (role, hook point) event sequence) + targeted orderings",
+		Rule:        "2..16 client goroutines issue set / delete / get / mem-only get through HStore on 2..8 shared keys over 1..3 buckets while harness-driven equivalents of the Flusher and HintDumper loop bodies run and tiny data-file / hint-split limits force rotations; every operation is recorded at the API boundary with invocation/response ticks of one global atomic counter, values are self-describing (key, writer, sequence, length, regenerable bytes) and freed C buffers are poisoned; per key the history is checked by (a) version rules (distinct dense versions, real-time order of writes, a read returns exactly the value of the write whose version it reports, no read from the future, no stale read, monotone reads, final read = highest version) and (b) porcupine v1.3.0 with a 30-line sequential model; schedule reach = seeded perturbation (yield / short sleep) at the store's hook points plus 9 deterministic park/release orderings (one parks an appender right after its record became visible in the write buffer while a flush already under way writes and frees it); after every history and ordering and a forced flush the four buffer counters must be zero and no C block may be live; the same histories run under the race detector (reports classified by racing source line) and AddressSanitizer. distinct = schedule signatures (hash of the global (role, hook point) event sequence) + targeted orderings",
 		Assumptions: []string{"the Go scheduler is not controlled: random-schedule histories are statistical", "races on C memory are visible only through asan and poison-on-free, not the race detector", "check_vhash off; concurrent incr excluded by the property"},
 		ReplayReps:  20,
 		Plan: func(tier string, seed uint64) []Job {
@@ -362,7 +362,7 @@ func init() {
 	})
 	register(&PropSpec{
 		ID: "C05", Level: "exploration",
-		Rule:        "recorder and checkers of C04 plus one GC pass (a range accepted by the store's own range check, merge on/off, optional CancelGC placed at a file boundary hook) over files holding the keys' current records, with 2..8 clients writing, deleting and reading the same keys, the flusher loop and (in a third of the cases) the hint dumper loop; after the pass a full read-back (rule: every key holds the accepted write with the highest version), then Close/NewHStore with an index subset removed and a second read-back against the last acknowledged write per key. Targeted placements: the GC goroutine is parked at each of its per-record steps for a chosen key (after the newest-check, after the copy, inside UpdateHtreePos between its tree get and tree set, after the repoint, before the source is cleared, at a file boundary) while a client sets / deletes / gets that key, x merge on/off. A read that returns an error while its position is being relocated is counted, not judged. distinct = placement (step x action x merge) and schedule signatures",
+		Rule:        "recorder and checkers of C04 plus one GC pass (a range accepted by the store's own range check, merge on/off, optional CancelGC placed at a file boundary hook) over files holding the keys' current records, with 2..8 clients writing, deleting and reading the same keys, the flusher loop and (in a third of the cases) the hint dumper loop; after the pass a full read-back (rule: every key holds the accepted write with the highest version), then Close/NewHStore with an index subset removed and a second read-back against the last acknowledged write per key. Targeted placements: the GC goroutine is parked at each of its per-record steps for a chosen key (after the newest-check, after the copy, inside UpdateHtreePos between its tree get and tree set, after the repoint, before the source is cleared, at a file boundary) while a client sets / deletes / gets that key, x merge on/off; plus two orderings in which the periodic hint dumper is parked inside trydump of the first source chunk (chunk locked) when the pass starts (the pass replaces that hint chunk): the process must survive and the read-backs hold. A read that returns an error while its position is being relocated is counted, not judged. distinct = placement (step x action x merge) and schedule signatures",
 		Assumptions: []string{"record size at most half the data-file limit", "the Go scheduler is not controlled in the stress cases"},
 		ReplayReps:  10,
 		Plan: func(tier string, seed uint64) []Job {
